@@ -96,7 +96,7 @@ func codecOf(s shape) webrtc.RTPCodecParameters {
 func fresh(cfg config) func() seqx.World {
 	return func() seqx.World {
 		sh := shapes[cfg.Shape]
-		w := fwd.New(codecOf(sh), 0)
+		w := fwd.New(codecOf(sh), 1)
 		l := rtpconn.VerifLayer{Tid: 0, WantedTid: 0, MaxTid: 2}
 		if sh.Codec == "vp9" {
 			l.MaxSid = 1
